@@ -318,8 +318,17 @@ package cisco
 // lines are concatenated by mergeIOSACLs); the lines of every occurrence must
 // be normalised, not only those of the first one (structural guard: the call
 // sits in a loop over the occurrences `acl` of the list `l`).
+// tgParsed: names of tunnel-groups that were tested for being an IP address.
+// Every tunnel-group name is tested (IPv4 and IPv6 peers alike), and every
+// command of a tunnel-group named by an address becomes an anchor with a fixed
+// name: such tunnel-groups are referenced by no other command and would
+// otherwise never be added, changed or removed.
+//vc:ghost var tgParsed set[string]
 //vc:func postprocessParsed
 //vc:  assert[C18] at "postprocessIOSACL(c)" @everyOccurrenceNormalised acl != nil && c != nil
+//vc:  assign after "netip.ParseAddr(name)" tgParsed = store(tgParsed, name, true)
+//vc:  invariant[C01] 11 "for name, l := range lookup[" @everyTunnelGroupNameTested forall n string :: { rangevisited[n] } rangevisited[n] ==> tgParsed[n]
+//vc:  assert[C01] at "c.anchor = true" @addressNamedTunnelGroupIsFixedAnchor c.fixedName
 
 // IOS writes wildcard masks (0.0.0.0 = host, 255.255.255.255 = any), ASA writes
 // network masks (the other way round): the two normalisers must say which.
